@@ -418,7 +418,7 @@ func evalC09(c *Ctx, cs EnumCase) EnumResult {
 		res.Obs = fmt.Sprintf("stream %d bytes; follower [%s]", o.StreamBytes, o.Follower)
 	} else {
 		for off := a.From; off < a.To; off++ {
-			o := runRepl(&w, off, a.Two)
+			o := runReplEx(&w, off, a.Two, true)
 			what := fmt.Sprintf("workload %s, leader->follower stream cut after %d bytes", w.Name, off)
 			if a.Two >= 0 {
 				what += fmt.Sprintf(" and the re-established stream after %d bytes", a.Two)
